@@ -41,6 +41,12 @@ def configs(tier, seed):
         seen.add(k)
         if len(seen) % 2:
             continue
+        try:
+            mm_, _ = M.build_map(base)
+            if base["dw"] > 16 or any(e - s_ > 4 for _, _, (s_, e) in mm_.resources()):
+                continue        # the two-netlist miter over 2*chunks+3 frames is decided in reasonable time up to here
+        except ValueError:
+            continue
         out.append(dict(base, ov=None, miter=[0, 1, 2, 3] if tier == "thorough" else [0, 1]))
     return out
 
